@@ -10,6 +10,7 @@ HARNESS = f"{VERIF}/harness"
 HCV = f"{HARNESS}/target/release/hcv"
 JAR = "/opt/veriftools/tla/tla2tools.jar:/opt/veriftools/tla/CommunityModules-deps.jar"
 T0 = time.time()
+HCV_ENV = {}
 
 
 def log(*a):
@@ -234,7 +235,7 @@ def record_and_validate(pid, wd, module, jobs, verdict, par=6):
     def one(job):
         tag, args = job
         trace = f"{wd}/{tag}.ndjson"
-        rc, out = sh(f"{HCV} {args} --out {trace}", timeout=3000)
+        rc, out = sh(f"{HCV} {args} --out {trace}", timeout=3000, env=HCV_ENV)
         if rc != 0 or not os.path.exists(trace):
             raise ToolError(f"harness failed ({tag}): rc={rc}\n{out[-2000:]}")
         stats = json.load(open(trace + ".stats.json"))
@@ -259,6 +260,17 @@ def record_and_validate(pid, wd, module, jobs, verdict, par=6):
             log(f"[{tag}] lines={r['lines']} runs={r['runs']} accepted={r['accepted']} "
                 f"rejected={len(r['rejections'])} {stats}")
     return agg
+
+
+def make_layout(wd, cfg="MCLayout.cfg"):
+    """Evaluate spec/Layout.tla with TLC (its ASSUMEs are checked on the way) and export the templates."""
+    out = f"{wd}/layout.json"
+    rc, o = sh(f"{VERIF}/bin/mklayout {out} {cfg}", timeout=1200)
+    if rc != 0:
+        raise ToolError("Layout.tla did not evaluate:\n" + o[-2000:])
+    HCV_ENV["HCV_LAYOUT"] = out
+    log("[tlc] " + o.strip())
+    return out
 
 
 def write_evidence(pid, tier, seed, level, coverage, assumptions, violations):
